@@ -420,13 +420,38 @@ Definition reply_ok (p : pkt) (prev : ip * N) (ty : N) (payload : list N) (r : r
   (r_ty r =? (if ty =? 128 then 129 else 131)) && (r_code r =? 0) &&
   bytes_eqb (r_payload r) payload.
 
+(** Audit follow-up: the property speaks of the destination *host*.  For SCMP replies and
+    errors the code reads RawDstAddr as an IP address whatever DstAddrType says
+    (addrPortFromBytes), so the strict specification also demands an IP address type. *)
+Definition scmp_dst_typed (p : pkt) : bool :=
+  match l4p p with L4Scmp _ _ _ _ => is_ip_type (dst_t p) | _ => true end.
+
+Definition dest_ok_strict (c : cfg) (p : pkt) (a : ip) (port : N) : bool :=
+  dest_ok c p a port && scmp_dst_typed p.
+
+Definition legit_dest_strict (c : cfg) (p : pkt) (a : ip) (port : N) : Prop :=
+  legit_dest c p a port /\
+  (forall ty code payload q, l4p p = L4Scmp ty code payload q -> is_ip_type (dst_t p) = true).
+
+(** the class of inputs of the open finding scmp-dst-type-unchecked: an SCMP message other
+    than an echo / traceroute request whose SCION destination is not of an IP type *)
+Definition known_scmp_dst_type (d : dgram) : bool :=
+  match d with
+  | Pkt p =>
+    match l4p p with
+    | L4Scmp ty _ _ _ => negb (is_info_req ty) && negb (is_ip_type (dst_t p))
+    | _ => false
+    end
+  | Undecodable => false
+  end.
+
 Definition oracle (c : cfg) (d : dgram) (ul : option ip) (prev : ip * N) (o : obs) : bool :=
   match o with
   | ODrop => true
   | OBad => false
   | OForward a port same =>
     same && is_disp c &&
-    match d with Pkt p => dest_ok c p a port && same_host a ul | Undecodable => false end
+    match d with Pkt p => dest_ok_strict c p a port && same_host a ul | Undecodable => false end
   | OReply r =>
     match d with
     | Pkt p =>
